@@ -203,3 +203,14 @@ Definition gating_coherent (S : schema) (F : features) : bool :=
                         forallb (fun i => Bool.eqb (visible_type S F o) (visible_type S F i)) ifs
                     | _ => true
                     end) (members S).
+
+(** directive locations are among the eighteen of the specification (otherwise the enum
+    __DirectiveLocation cannot present them) *)
+Definition locations_known (S : schema) : bool :=
+  forallb (fun d => forallb (fun l => mem l known_locations) (dd_locs (snd d))) (directives S).
+
+(** an object does not declare the same interface twice (schema.New does not check this) *)
+Fixpoint nodup_b (l : list name) : bool :=
+  match l with [] => true | x :: r => negb (mem x r) && nodup_b r end.
+Definition interfaces_declared_once (S : schema) : bool :=
+  forallb (fun t => match snd t with NObject _ ifs _ _ => nodup_b ifs | _ => true end) (types S).
